@@ -200,3 +200,6 @@ pub(crate) unsafe fn pfs_approx_stub(_this: &PrefetchSupport, symbol: u8, i: usi
     assert!(symbol <= 3, "approx_rank_unchecked: symbol > 3");
     (i >> 11) << 11
 }
+
+/// Feature `prefetch` on: Kani has no model of the prefetch intrinsic; a hint has no effect on values.
+pub(crate) fn noop_prefetch<T>(_data: &[T], _offset: usize) {}
